@@ -113,3 +113,10 @@ Proof.
   destruct (H3 Hp) as (_ & B & _). exact B.
 Qed.
 Print Assumptions C09_hc_mid_capacity.
+
+Theorem C09_hc_mid_bad_sizes :
+  forall c src srcSize cap,
+    -2147483648 <= srcSize < 2147483648 -> (srcSize < 0 \/ LZ4_MAX_INPUT_SIZE < srcSize) ->
+    hr_ret (compress_HC_fastReset_mid c src srcSize cap) = 0.
+Proof. exact compress_HC_fastReset_mid_bad_size. Qed.
+Print Assumptions C09_hc_mid_bad_sizes.
